@@ -23,6 +23,25 @@ Fixpoint layout_from (P pos : nat) (evs : list (list Z)) : list Z :=
   end.
 Definition layout (P : nat) (evs : list (list Z)) : list Z := layout_from P 0 evs.
 
+(* page index (relative to the page of stream position 0) in which the header of each event starts *)
+Fixpoint starts_from (P pos : nat) (evs : list (list Z)) : list nat :=
+  match evs with
+  | [] => []
+  | e :: rest => ((pos + pad_at P pos) / P)%nat :: starts_from P (pos + length (frame_event P pos e))%nat rest
+  end.
+Definition starts (P : nat) (evs : list (list Z)) : list nat := starts_from P 0 evs.
+
+(* the same on binary numbers, from the event sizes only (this is what the correspondence check runs: positions in
+   a chain of hundreds of pages are too big for unary numbers); equal to starts_from: Proofs/PQLayoutProofs.v *)
+Fixpoint starts_fromZ (P pos : Z) (lens : list Z) : list Z :=
+  match lens with
+  | [] => []
+  | l :: rest =>
+      let room := P - pos mod P in
+      let pad := if room <? pq_szEventHeader then room else 0 in
+      ((pos + pad) / P) :: starts_fromZ P (pos + pad + pq_szEventHeader + l) rest
+  end.
+
 (* the reader: n events from stream position pos; None = stream too short *)
 Fixpoint parse_from (P : nat) (stream : list Z) (pos : nat) (n : nat) : option (list (list Z)) :=
   match n with
